@@ -127,8 +127,72 @@ def main():
                 pass
             time.sleep(0.01)
 
+    reuse = {"sent": 0, "ok": 0, "detail": ""}
+
+    def reuser():
+        # one client that keeps ONE connection open and sends several requests over it, one after the
+        # other (valid solve, health, invalid solve, valid solve): each must get its own complete answer
+        import json as _json
+        rrnd = random.Random(seed * 104729 + 7)
+        valid = [k for k in range(n) if open(os.path.join(req, "req_%d.kind" % k)).read() == "valid"]
+        invalid = [k for k in range(n) if open(os.path.join(req, "req_%d.kind" % k)).read() == "invalid"]
+        if not valid:
+            return
+        plan = []
+        for _ in range(3):
+            plan.append(("valid", rrnd.choice(valid)))
+            plan.append(("health", None))
+            if invalid:
+                plan.append(("invalid", rrnd.choice(invalid)))
+        plan.append(("valid", rrnd.choice(valid)))
+        try:
+            c = http.client.HTTPConnection("127.0.0.1", port, timeout=60)
+            for kind, k in plan:
+                reuse["sent"] += 1
+                try:
+                    if kind == "health":
+                        c.request("GET", "/health")
+                    else:
+                        c.request("POST", "/solve", body=open(os.path.join(req, "req_%d.body" % k)).read().encode(),
+                                  headers={"Content-Type": "application/json"})
+                    r = c.getresponse()
+                    data = r.read().decode("utf-8", "replace")
+                except Exception as e:
+                    # an invalid body may cost the connection (closed without answer): open a new one
+                    if kind == "invalid":
+                        reuse["ok"] += 1
+                        c.close()
+                        c = http.client.HTTPConnection("127.0.0.1", port, timeout=60)
+                        continue
+                    reuse["detail"] = "%s request on a kept-alive connection: %s" % (kind, str(e)[:60])
+                    c.close()
+                    c = http.client.HTTPConnection("127.0.0.1", port, timeout=60)
+                    continue
+                if kind == "health":
+                    good = r.status == 200 and data.strip() == "Healthy"
+                elif kind == "invalid":
+                    good = r.status != 200
+                else:
+                    good = False
+                    if r.status == 200:
+                        try:
+                            j = _json.loads(data)
+                            inst = _json.loads(open(os.path.join(req, "req_%d.body" % k)).read())
+                            want = sorted(x["id"] for d in inst["departures"] for x in d["segments"])
+                            got = sorted(x["departureSegment"] for x in j["schedule"]["departureSegments"])
+                            good = want == got
+                        except Exception:
+                            good = False
+                if good:
+                    reuse["ok"] += 1
+                elif not reuse["detail"]:
+                    reuse["detail"] = "%s request on a kept-alive connection answered %s" % (kind, r.status)
+            c.close()
+        except Exception as e:
+            reuse["detail"] = reuse["detail"] or ("client error %s" % str(e)[:60])
+
     if up:
-        ts = [threading.Thread(target=worker) for _ in range(clients)] + [threading.Thread(target=prober), threading.Thread(target=abandoner)]
+        ts = [threading.Thread(target=worker) for _ in range(clients)] + [threading.Thread(target=prober), threading.Thread(target=abandoner), threading.Thread(target=reuser)]
         for t in ts:
             t.start()
         for t in ts:
@@ -211,7 +275,8 @@ def main():
     common = ["V serverup %d" % int(up), "V alive %d" % int(alive),
               "V finalhealth %s %s" % (final_health[0], final_health[1].strip().replace(" ", "_")[:40]),
               "V healthprobes %d %d" % (len(health_during), sum(1 for s, b in health_during if s == "200" and b.strip() == "Healthy")),
-              "V clients %d" % clients, "V abandoned %d" % abandoned[0]]
+              "V clients %d" % clients, "V abandoned %d" % abandoned[0],
+              "V reuse %d %d %s" % (reuse["sent"], reuse["ok"], reuse["detail"].replace(" ", "_") or "-")]
     for k in range(n):
         kind, st, body = results.get(k, (open(os.path.join(req, "req_%d.kind" % k)).read(), "notsent", ""))
         write_case("serve_%d_%d" % (seed, k), k, kind, st, body, common)
